@@ -70,6 +70,7 @@ CLAIM = {
 }
 
 DEGS = (0, 30, 45, 60, 90, 120, 135, 150, 180)
+DEGS_FACING = DEGS + (225, 360)        # beyond 180 degrees: any orientation
 NOREF = {'kind': 'none', 'ax': 3, 'h': 0, 'lo': [0, 0], 'hi': [0, 0], 'up': True, 'cells': False}
 
 
@@ -161,11 +162,11 @@ def _lattice_crit(rnd):
         while True:
             d = [rnd.randint(-2, 2) for _ in range(3)]
             if any(d):
-                return _facing(d, rnd.choice(DEGS), True)
+                return _facing(d, rnd.choice(DEGS_FACING), True)
     lo = [rnd.randint(-1, 4), rnd.randint(-1, 4)]
     hi = [lo[0] + rnd.randint(1, 4), lo[1] + rnd.randint(1, 4)]
     ref = {'kind': 'patch', 'ax': rnd.randint(1, 3), 'h': rnd.randint(-1, 4), 'lo': lo, 'hi': hi,
-           'up': rnd.random() < 0.5, 'cells': rnd.random() < 0.5}
+           'up': rnd.random() < 0.5, 'cells': rnd.random() < 0.5, 'sliver': rnd.choice((0, 0, 2, 3))}
     return _near(ref, rnd.random() < 0.5, rnd.randint(0, 12),
                  rnd.randint(0, 8) if rnd.random() < 0.5 else None,
                  rnd.choice(DEGS) if rnd.random() < 0.6 else None, True)
